@@ -160,7 +160,11 @@ class Mod(object):
             if not nosummary and D.bool():
                 self.add('')
                 self.add('{}Args:'.format(ind))
-                self.add('{}    a (int): something'.format(ind))
+                # (now and then with a character that str.splitlines() breaks at although it does not end a line of the file)
+                odd = D.choice(['', '', '', ' such as \x0c or \x1c', ' (\x0b)', ' \x1e\x1d'])
+                self.add('{}    a (int): something{}'.format(ind, odd))
+                if odd:
+                    self.features.add('splitlines_only_separator_in_prose')
             if not nosummary and D.chance(1, 3):
                 self.add('')
                 self.add('{}Returns:'.format(ind))
